@@ -786,6 +786,19 @@ def deep_copy(value):
     return copy.deepcopy(value)
 
 
+def deep_copy_unshared(value):
+    """Returns a deep copy of `value` in which no container object is reachable via more than one path.
+
+    A YAML document that uses anchors and aliases is loaded with the same dictionary/list object in several places
+    (copy.deepcopy() preserves that); editing the definition of one component would then silently edit another.
+    """
+    if isinstance(value, dict):
+        return value.__class__((key, deep_copy_unshared(value[key])) for key in value)
+    if isinstance(value, (list, tuple)):
+        return value.__class__(deep_copy_unshared(entry) for entry in value)
+    return copy.deepcopy(value)
+
+
 def replace_env_var(string, key, value):
     # VV: re.finditer() returns matches in the order found when scanning the string from left to right
     #     apply the replace() instructions using the reverse order so that the indices reported by
@@ -4777,7 +4790,7 @@ class FlowIRConcrete(object):
         flowir_0 = flowir_0 or {}
 
         # VV: Apply any Component modification rules here
-        flowir_0 = deep_copy(flowir_0)
+        flowir_0 = deep_copy_unshared(flowir_0)
         components = flowir_0.get(FlowIR.FieldComponents, None)
         if components:
             def pipeline(component):
